@@ -44,7 +44,6 @@ struct HandleObj {
 /// A frozen heap that received values of other heaps through `add_to_frozen_heap` (which records the reference),
 /// with or without allocations of its own; sealed with `into_ref_named`. The ref is the only owner we keep.
 struct FwdHeapObj {
-    #[allow(dead_code)]
     heap: FrozenHeapRef,
     vals: Vec<(FrozenValue, String)>,
     from_dropped: bool,
@@ -436,13 +435,26 @@ impl World {
             if !live_f.is_empty() && (live_g.is_empty() || ch.bool()) {
                 let i = live_f[ch.idx(live_f.len())];
                 let f = self.fwd[i].take();
-                self.log.push(format!("drop fh{i}"));
-                drop(f);
+                self.log.push(format!("drop fh{i}{}", if other_thread { " on another thread" } else { "" }));
+                if other_thread {
+                    self.cross_thread_drops += 1;
+                    // FrozenValue handles are plain pointers; only the heap reference decides lifetime
+                    let heap = f.map(|f| f.heap);
+                    let _ = std::thread::spawn(move || drop(heap)).join();
+                } else {
+                    drop(f);
+                }
             } else {
                 let i = live_g[ch.idx(live_g.len())];
                 let g = self.globals[i].take();
-                self.log.push(format!("drop g{i}"));
-                drop(g);
+                self.log.push(format!("drop g{i}{}", if other_thread { " on another thread" } else { "" }));
+                if other_thread {
+                    self.cross_thread_drops += 1;
+                    let g = g.map(|g| g.g);
+                    let _ = std::thread::spawn(move || drop(g)).join();
+                } else {
+                    drop(g);
+                }
             }
         } else if pick_mod {
             let i = live_m[ch.idx(live_m.len())];
